@@ -43,6 +43,10 @@ const (
 	rsRefused
 	rsClosed
 	rsNoAck
+	// rsNoAckClosed is never generated: resolve() turns a no-CONNACK attempt into it when the client's own Close
+	// (reconnect loop, after the handshake deadline) won the race against the request that was waiting for the
+	// handshake to end; the model then takes the schedule with the close first (its CoClosed outcome)
+	rsNoAckClosed
 )
 
 type rsAttempt struct {
@@ -80,6 +84,15 @@ type rsScenario struct {
 	CancelCtx bool // the caller cancels the context it gave to Connect once Connect has returned
 	CallerDup bool // the caller's Message structs arrive with Dup already set (a reused struct)
 	CapQoS    int  // 0: the broker grants what was requested; 1,2: it grants min(requested, CapQoS-1) in SUBACK
+	// how the deadline of the CONNACK wait is configured when some attempt never gets a CONNACK:
+	// 0: WithTimeout(400ms); 1: only WithPingInterval(1s) (Timeout defaults to it); 2: only the CONNECT
+	// keep-alive of 1 s (PingInterval defaults to it, Timeout to that)
+	HsTimeoutVia int
+	LateTimeout  bool // ResponseTimeout is assigned after the first connection is up (no request before that)
+	// EOFWrites: a failing Write returns exactly io.EOF, the one error value the library passes through bare (so
+	// the request comes back without a retry handle and the RetryClient drops it).  Outside the model's fault
+	// alphabet: such scenarios are judged by the property predicate only (rsPredOnly), never compared with the model.
+	EOFWrites bool
 	Phases    []rsPhase
 	Faults    []rsFault
 	Note      string
@@ -106,12 +119,48 @@ func (sc *rsScenario) usesSilent() bool {
 func (sc *rsScenario) usesNoAck() bool {
 	for _, p := range sc.Phases {
 		for _, a := range p.Attempts {
-			if a.Kind == rsNoAck {
+			if a.Kind == rsNoAck || a.Kind == rsNoAckClosed {
 				return true
 			}
 		}
 	}
 	return false
+}
+
+// resolve returns the scenario with the one scheduling choice the driver does not control fixed as observed:
+// after a handshake deadline the reconnect loop closes the client while a request queued during the handshake
+// is released (BaseClient.muConnecting); the request's packet is either written to the still open transport
+// (WOk, the broker ignores it) or finds it closed (WDead).  Both are executions of the model (LTask before or
+// after LCloseFailed); nothing else differs between them.
+func (sc *rsScenario) resolve(o *rsObs) *rsScenario {
+	if !sc.usesNoAck() {
+		return sc
+	}
+	cp := *sc
+	cp.Phases = nil
+	conn := 0
+	for _, p := range sc.Phases {
+		q := p
+		q.Attempts = append([]rsAttempt{}, p.Attempts...)
+		for i, a := range q.Attempts {
+			if a.Kind == rsDialFail {
+				continue
+			}
+			if a.Kind == rsNoAck {
+				for _, w := range o.Wire {
+					if w.Conn == conn {
+						if w.Res == "WDead" {
+							q.Attempts[i].Kind = rsNoAckClosed
+						}
+						break
+					}
+				}
+			}
+			conn++
+		}
+		cp.Phases = append(cp.Phases, q)
+	}
+	return &cp
 }
 
 // ---------- observations ----------
@@ -242,7 +291,11 @@ func (b *rsBroker) onWrite(c *memConn, pkt []byte) error {
 		}
 		return nil
 	}
-	if typ == 0xE0 || typ == 0xC0 {
+	if typ == 0xC0 {
+		c.send([]byte{0xD0, 0}) // keep-alive pings (configured in the no-CONNACK scenarios) are answered at once
+		return nil
+	}
+	if typ == 0xE0 {
 		return nil
 	}
 	b.mu.Lock()
@@ -353,6 +406,9 @@ func (b *rsBroker) onWrite(c *memConn, pkt []byte) error {
 	if f == fWriteFail {
 		b.wire = append(b.wire, rsWire{k, coq, "WFail", desc + " cut"})
 		c.cut()
+		if b.sc.EOFWrites {
+			return io.EOF
+		}
 		return errCut
 	}
 	res := "WOk"
@@ -493,7 +549,15 @@ func rsRun(sc *rsScenario) rsObs {
 	var errMu sync.Mutex
 	var errs []string
 	rc := &mqtt.RetryClient{}
-	if sc.Timeout {
+	late := sc.Timeout && sc.LateTimeout && len(sc.Phases) > 0
+	if late {
+		for _, a := range sc.Phases[0].Attempts {
+			if len(a.Mid) > 0 {
+				late = false // a request runs before the point where the field is assigned
+			}
+		}
+	}
+	if sc.Timeout && !late {
 		rc.ResponseTimeout = 150 * time.Millisecond
 	}
 	rc.OnError = func(err error) {
@@ -516,8 +580,16 @@ func rsRun(sc *rsScenario) rsObs {
 	}
 	opts := []mqtt.ReconnectOption{mqtt.WithReconnectWait(200*time.Microsecond, time.Millisecond),
 		mqtt.WithRetryClient(rc), mqtt.WithAlwaysResubscribe(sc.Always)}
+	connOpts := []mqtt.ConnectOption{mqtt.WithCleanSession(false)}
 	if sc.usesNoAck() {
-		opts = append(opts, mqtt.WithTimeout(200*time.Millisecond))
+		switch sc.HsTimeoutVia {
+		case 1:
+			opts = append(opts, mqtt.WithPingInterval(time.Second))
+		case 2:
+			connOpts = append(connOpts, mqtt.WithKeepAlive(1))
+		default:
+			opts = append(opts, mqtt.WithTimeout(400*time.Millisecond))
+		}
 	}
 	cli, err := mqtt.NewReconnectClient(dialer, opts...)
 	if err != nil {
@@ -530,7 +602,7 @@ func rsRun(sc *rsScenario) rsObs {
 	defer connCancel()
 	connReturned := make(chan struct{})
 	go func() {
-		_, _ = cli.Connect(connCtx, "cid", mqtt.WithCleanSession(false))
+		_, _ = cli.Connect(connCtx, "cid", connOpts...)
 		close(connReturned)
 	}()
 
@@ -682,6 +754,11 @@ phases:
 			if !barrier(where + " after connect") {
 				break phases
 			}
+			if at.Kind == rsAccept && late && rc.ResponseTimeout == 0 {
+				// configured on the running client: the task goroutine is idle behind the barrier and reads
+				// the field again for the next request
+				rc.ResponseTimeout = 150 * time.Millisecond
+			}
 		}
 		for oi, op := range ph.Ops {
 			submit(op)
@@ -777,6 +854,8 @@ func (sc *rsScenario) coq() string {
 				kind = "AConn CoClosed"
 			case rsNoAck:
 				kind = "AConn CoNoAck"
+			case rsNoAckClosed:
+				kind = "AConn CoClosed"
 			}
 			ats = append(ats, fmt.Sprintf("{| at_kind := %s; at_mid := %s |}", kind, rsCoqOps(a.Mid)))
 		}
@@ -820,7 +899,7 @@ func (sc *rsScenario) describe() map[string]interface{} {
 	for _, p := range sc.Phases {
 		var ats []string
 		for _, a := range p.Attempts {
-			k := []string{"dial-fails", "accept", "refused", "closed-before-connack", "no-connack"}[a.Kind]
+			k := []string{"dial-fails", "accept", "refused", "closed-before-connack", "no-connack", "no-connack (own close ahead of the queued request)"}[a.Kind]
 			if a.Kind == rsAccept {
 				k += fmt.Sprintf("(sessionPresent=%v)", a.SP)
 			}
@@ -837,7 +916,9 @@ func (sc *rsScenario) describe() map[string]interface{} {
 	}
 	return map[string]interface{}{"methodB": sc.MethodB, "alwaysResubscribe": sc.Always, "responseTimeout": sc.Timeout,
 		"connectContextCancelledAfterConnect": sc.CancelCtx, "callerStructHasDupSet": sc.CallerDup,
-		"callerIDs": sc.CallerIDs, "brokerGrantsAtMostQoS": sc.CapQoS - 1, "phases": phs, "faults": fs, "note": sc.Note}
+		"callerIDs": sc.CallerIDs, "brokerGrantsAtMostQoS": sc.CapQoS - 1,
+		"connackDeadlineVia":                  []string{"WithTimeout", "WithPingInterval only", "CONNECT keep-alive only"}[sc.HsTimeoutVia%3],
+		"responseTimeoutAssignedLate":         sc.LateTimeout, "failingWriteReturnsEOF": sc.EOFWrites, "phases": phs, "faults": fs, "note": sc.Note}
 }
 
 func rsDescOps(ops []rsOp) string {
@@ -950,6 +1031,8 @@ func (g *rsGen) scenario(w [5]int, silent, keepSession bool) *rsScenario {
 	}
 	sc.CancelCtx = r.Intn(2) == 0
 	sc.CallerDup = r.Intn(4) == 0
+	sc.LateTimeout = r.Intn(3) == 0
+	sc.HsTimeoutVia = r.Intn(3)
 	if silent {
 		sc.Timeout = true
 	} else {
@@ -964,6 +1047,9 @@ func (g *rsGen) scenario(w [5]int, silent, keepSession bool) *rsScenario {
 		for r.Intn(4) == 0 && len(ph.Attempts) < 2 {
 			kinds := []int{rsDialFail, rsRefused, rsClosed}
 			at := rsAttempt{Kind: kinds[r.Intn(len(kinds))]}
+			if r.Intn(8) == 0 {
+				at.Kind = rsNoAck // the broker reads CONNECT and stays silent: costs one handshake timeout
+			}
 			if r.Intn(2) == 0 {
 				at.Mid = g.ops(1+r.Intn(2), w)
 				pendingBound += rsPacketsBound(at.Mid)
@@ -1132,6 +1218,47 @@ func rsCorpus() []*rsScenario {
 			Ops: []rsOp{rsP(4, 1), rsP(5, 0), rsU(6, "a"), rsP(7, 2)}, IdleCut: true},
 		{Attempts: []rsAttempt{{Kind: rsClosed}, {Kind: rsDialFail, Mid: []rsOp{rsP(8, 1)}}, acc(true)}}},
 		Faults: []rsFault{{1, 3, fLostAfter}}})
+	// CONNACK never sent: the broker reads CONNECT and stays silent, with requests pending; the deadline of the
+	// CONNACK wait comes from WithTimeout, from WithPingInterval alone, or from the CONNECT keep-alive alone
+	for via := 0; via < 3; via++ {
+		out = append(out, &rsScenario{Note: fmt.Sprintf("CONNACK never sent with requests pending (deadline configured via %d)", via),
+			HsTimeoutVia: via, MethodB: via == 1, Phases: []rsPhase{
+				{Attempts: []rsAttempt{acc(false)}, Ops: []rsOp{rsP(1, 1), rsP(2, 2), rsS(3, rsSub{"a", 1})}, IdleCut: true},
+				{Attempts: []rsAttempt{{Kind: rsNoAck, Mid: []rsOp{rsP(4, 1)}}, acc(true)}, Ops: []rsOp{rsU(5, "a")}}},
+			Faults: []rsFault{{0, 0, fAckLost}}})
+	}
+	out = append(out, &rsScenario{Note: "CONNACK never sent on the first two connections, requests before and meanwhile", HsTimeoutVia: 0, Phases: []rsPhase{
+		{Attempts: []rsAttempt{{Kind: rsNoAck, Mid: []rsOp{rsP(1, 2)}}, {Kind: rsNoAck, Mid: []rsOp{rsS(2, rsSub{"a", 2})}}, acc(false)},
+			Ops: []rsOp{rsP(3, 1)}}}})
+	// a Retry pass in which a deferred first transmission (submitted during the outage) times out while the
+	// connection stays open: the pass goes on with the next entry on that connection, the abandoned one is
+	// retransmitted on the NEXT connection, never behind a later message on the same one
+	for i, q := range []byte{1, 2} {
+		out = append(out, &rsScenario{Note: "deferred first transmission times out in the middle of a Retry pass", Timeout: true, MethodB: i == 1, Phases: []rsPhase{
+			{Attempts: []rsAttempt{acc(false)}, Ops: []rsOp{rsP(1, 1)}, IdleCut: true},
+			{Attempts: []rsAttempt{{Kind: rsDialFail, Mid: []rsOp{rsP(2, q), rsP(3, 1), rsP(4, 1)}}, acc(true)}, IdleCut: true},
+			{Attempts: []rsAttempt{acc(true)}}},
+			Faults: []rsFault{{0, 0, fAckLost}, {1, 1, fSilentAck}}})
+	}
+	// QoS 2 with a response timeout: PUBREC / PUBCOMP withheld on a connection that stays open; the client gives the
+	// connection up itself and must come back (exactly one onward delivery, session kept)
+	for i, fs := range [][]rsFault{{{0, 0, fSilentAck}}, {{0, 1, fSilentAck}}, {{0, 0, fSilentReq}}, {{0, 0, fSilentAck}, {1, 1, fSilentAck}}} {
+		phs := []rsPhase{{Attempts: []rsAttempt{acc(false)}, Ops: []rsOp{rsP(1, 2)}, IdleCut: true}}
+		for k := 1; k < len(fs); k++ {
+			phs = append(phs, rsPhase{Attempts: []rsAttempt{acc(true)}, IdleCut: true})
+		}
+		phs = append(phs, rsPhase{Attempts: []rsAttempt{acc(true)}})
+		out = append(out, &rsScenario{Note: "QoS 2 acknowledgement withheld, response timeout, own close, reconnect", Timeout: true, MethodB: i%2 == 0,
+			Phases: phs, Faults: fs})
+	}
+	// the response timeout is assigned to the running client (after the first connection is up)
+	for i, op := range []rsOp{rsP(1, 1), rsP(1, 2), rsS(1, rsSub{"a", 1}), rsU(1, "a")} {
+		out = append(out, &rsScenario{Note: "ResponseTimeout configured on the running client, then an acknowledgement is withheld",
+			Timeout: true, LateTimeout: true, MethodB: i%2 == 1, Phases: []rsPhase{
+				{Attempts: []rsAttempt{acc(false)}, Ops: []rsOp{op}},
+				{Attempts: []rsAttempt{acc(true)}}},
+			Faults: []rsFault{{0, 0, fSilentAck}}})
+	}
 	return out
 }
 
@@ -1161,12 +1288,15 @@ func rsRunAll(scs []*rsScenario, workers int) []rsCase {
 					if o.IDClash {
 						continue // two messages drew the same random identifier: not a verdict, run again
 					}
+					if scs[i].usesNoAck() && try < 2 && o.Stuck != "" {
+						continue // a handshake that missed its short deadline on an overloaded machine? run again
+					}
 					if scs[i].Timeout && try < 3 && rsSuspectTiming(scs[i], &o) {
 						continue // a response timeout that no silent fault explains: scheduling delay? run again
 					}
 					break
 				}
-				out[i] = rsCase{scs[i], o}
+				out[i] = rsCase{scs[i].resolve(&o), o}
 			}
 		}()
 	}
@@ -1212,6 +1342,9 @@ type rsFamily struct {
 	scs  []*rsScenario
 }
 
+// rsPredOnly: families (by name) whose scenarios leave the model's fault alphabet; only V_<name> is computed.
+var rsPredOnly = map[string]bool{}
+
 // rsRunProperty runs the families for one property and writes cases_<pid>.v / meta.
 func rsRunProperty(cfg *runCfg, pid string, pred string, fams []rsFamily, rule string, nontrivial func(*rsScenario, *rsObs) bool) error {
 	cf := newCasesFile(pid, "RetryCore", "RetrySys", "CheckRetry")
@@ -1244,7 +1377,7 @@ func rsRunProperty(cfg *runCfg, pid string, pred string, fams []rsFamily, rule s
 			for _, p := range c.sc.Phases {
 				dist["connections"]++
 				for _, a := range p.Attempts {
-					dist["attempt_"+[]string{"dialfail", "accept", "refused", "closed", "noack"}[a.Kind]]++
+					dist["attempt_"+[]string{"dialfail", "accept", "refused", "closed", "noack", "noack"}[a.Kind]]++
 					dist["requests_while_connecting"] += len(a.Mid)
 				}
 				for _, o := range p.Ops {
@@ -1267,7 +1400,9 @@ func rsRunProperty(cfg *runCfg, pid string, pred string, fams []rsFamily, rule s
 		total += len(cases)
 		cf.def("cases_"+fam.name, "list (scenario * obs)", cList(items))
 		cf.result("V_"+fam.name, fmt.Sprintf("failing %s cases_%s", pred, fam.name))
-		cf.result("M_"+fam.name, fmt.Sprintf("failing model_ok cases_%s", fam.name))
+		if !rsPredOnly[fam.name] {
+			cf.result("M_"+fam.name, fmt.Sprintf("failing model_ok cases_%s", fam.name))
+		}
 		m.Distribution["family_"+fam.name] = len(cases)
 	}
 	if extra, ok := rsExtra[pid]; ok {
